@@ -364,6 +364,10 @@ func (g *G) genConcurrent(id string) *History {
 			if vary != "" {
 				hdr = g.reqHeaders([]string{"X-A", "X-B"})
 			}
+			if g.chance(0.15) {
+				// several callers that may each be answered with a synthesised 504 (or a stored response)
+				hdr = append(hdr, [2]string{"Cache-Control", pick(g, "only-if-cached", "only-if-cached", "only-if-cached, max-stale")})
+			}
 			var rp Reply
 			if method == "GET" {
 				hd := Hdr{{"Date", dateAt(at, 0)}, {"Cache-Control", pick(g, "max-age=5, stale-while-revalidate=600", "max-age=600", "max-age=0, stale-while-revalidate=600", "no-cache")}}
